@@ -62,6 +62,8 @@ class Sched:
         self.point_hook = None  # called at every scheduling point (invariant checks)
         self.max_steps = max_steps
         self.timeouts_fired = 0
+        self.real_threads = []
+        self.quiescent = False
 
     # ---------------------------------------------------------------- registry
     def register_main(self, name="main"):
@@ -185,8 +187,41 @@ class Sched:
                         pass
 
         real = _rt.Thread(target=body, name=name, daemon=True)
+        self.real_threads.append(real)
         real.start()
         return t
+
+    # ---------------------------------------------------------------- quiescence probes (C13)
+    def park(self):
+        """Block the calling (harness) thread until no other thread is runnable. Instead of firing virtual
+        timeouts, the scheduler then wakes the parked thread: the system has come to rest."""
+        me = self.me()
+
+        def hook(s):
+            if me.state == "block" and me.on == "parked":
+                s.quiescent = True
+                s.wake(me)
+                return True
+            return False
+
+        self.idle_hook = hook
+        self.block("parked")
+        self.idle_hook = None
+
+    def abort(self):
+        """End the run: every controlled thread is released and unwinds with Abort."""
+        self.dead = True
+        for t in self.threads.values():
+            if t.state != "done" and not t.is_main:
+                t.sem.release()
+
+    def join_real(self, timeout=5.0):
+        import time as _time
+
+        deadline = _time.time() + timeout
+        for r in self.real_threads:
+            r.join(max(0.0, deadline - _time.time()))
+        return [r.name for r in self.real_threads if r.is_alive()]
 
     def signature(self):
         h = hashlib.sha1()
